@@ -306,6 +306,15 @@ def shard_fn(shard, nshards, seed, tier, exe, nconf, nrob):
         cid = "%d.%d" % (shard, n)
         n += 1
         mode = rng.randrange(2)
+        if kind != "listed" and raw is None and isinstance(patch, list) and patch and all(isinstance(o, dict) for o in patch) and rng.random() < 0.05:
+            # the same document and operations, K containers further down: every path and from runs through K more reference tokens (a pointer is as long as the document is deep)
+            K = rng.choice([30, 31, 32, 33, 34, 40, 64, 100, 150])
+            arr = rng.random() < 0.5
+            prefix = (b"/0" if arr else b"/w") * K
+            for _ in range(K):
+                doc = [doc] if arr else {b"w": doc}
+            patch = [{k: (prefix + v if k in (b"path", b"from") and isinstance(v, bytes) else v) for k, v in o.items()} for o in patch]
+            sh.count("documents.wrapped_in_30_to_150_more_levels")
         dt, pt = encode(doc), (raw if raw is not None else encode(patch))
         hist = []
         if kind != "listed" and rng.random() < 0.15:
@@ -331,12 +340,15 @@ def shard_fn(shard, nshards, seed, tier, exe, nconf, nrob):
                 hist += ["NAV 0 5 " + " ".join(("i%d" % y) if isinstance(y, int) else "k" + y.hex() for y in q), "SSTR 5 x" + (x + b"-longer-for-a-while-" * 3).hex(), "SSTR 5 x" + x.hex()]
             if hist:
                 sh.count("documents.with_grow_shrink_history")
-        cmds = ["P 0 64 1 x%s 0" % dt.hex()] + hist + ["P 0 64 1 x%s 1" % pt.hex(), "D 1"]
+        cmds = ["P 0 400 1 x%s 0" % dt.hex()] + hist + ["P 0 400 1 x%s 1" % pt.hex(), "D 1"]
         # afterwards every scalar of the RESULT is changed in place: neither the patch nor (copy_from mode) the source document may notice
+        noerr = " N" if rng.random() < 0.12 else ""   # (no json_patch_error handed in: the argument is optional)
+        if noerr:
+            sh.count("patches_applied_without_an_error_struct")
         if mode == 0:
-            cmds += ["PATCH 0 1 0", "D 0", "D 1", "SCRAMBLE 0", "D 1", "D 0", "PUT 0", "PUT 1"]
+            cmds += ["PATCH 0 1 0 -" + noerr, "D 0", "D 1", "SCRAMBLE 0", "D 1", "D 0", "PUT 0", "PUT 1"]
         else:
-            cmds += ["PATCH 0 1 1 2", "D 2", "D 1", "D 0", "SCRAMBLE 2", "D 1", "D 0", "D 2", "PUT 0", "PUT 1", "PUT 2"]
+            cmds += ["PATCH 0 1 1 2" + noerr, "D 2", "D 1", "D 0", "SCRAMBLE 2", "D 1", "D 0", "D 2", "PUT 0", "PUT 1", "PUT 2"]
         cases.append((cid, cmds))
         meta[cid] = (doc, patch, mode, kind, len(hist))
 
@@ -425,7 +437,7 @@ def shard_fn(shard, nshards, seed, tier, exe, nconf, nrob):
         else:
             if rc == 0:
                 key, what = "accepts-invalid-patch/%s" % (opname(widx) if widx >= 0 else "not-an-array"), "RFC 6902 evaluation fails at op %d but json_patch_apply succeeded" % widx
-            elif widx >= 0 and idx != widx:
+            elif widx >= 0 and idx != widx and idx != -2:   # (-2: no error struct was handed in)
                 key, what = "wrong-failure-index/%s" % opname(idx if 0 <= idx < len(ops) else 0), "failed at op %d, RFC 6902 evaluation fails first at op %d" % (idx, widx)
         if not key and pdump_after != pdump_before:
             key, what = "patch-document-modified", "the patch document changed: %s -> %s" % (pdump_before[:150], pdump_after[:150])
